@@ -71,5 +71,42 @@ CLAIMED["C19"] = {
              "Python's statistics module; float summation order dependence is a recorded finding (C19-F5)."),
     "technique": "Coq proof over Gallina specification functions + vm_compute correspondence against the library",
 }
+_EV = ("Coq kernel + vm_compute; Model/Eval.v is a hand model of the evaluator for a core fragment (expressions, blocks with catch/finally, "
+       "if/for/while, calls with named/default/rest/spread arguments, closures, objects with prototypes, lists/sets/maps on a heap, "
+       "comprehensions, ~25 natives), tied to the code by correspondence on generated programs (sampling; programs outside the fragment are "
+       "skipped and counted); tools/ast2model.py converts the real parser's tree (fails closed); no axioms.")
+CLAIMED["C05"] = {
+    "text": ("Theorems in coq/Props/C05.v about block_sem, the model of NodeBlock.evaluate, parametric in the meaning of statements, handlers and "
+             "finally parts (so they hold for every body and nesting): finally runs exactly once for every way of leaving the block; no statement "
+             "after the failing one runs; handlers are tried in order, catch all or the first whose value == the error value handles it and its "
+             "result becomes the block's value; an unmatched error continues unchanged; return/break/continue pass through; an error in finally "
+             "replaces the outcome. Tie: evaluator correspondence on generated do/catch/finally nests with injected errors + fixed scenarios."),
+    "note": _EV, "technique": "Coq proof over a body-parametric Gallina model of blocks + vm_compute evaluator correspondence",
+}
+CLAIMED["C04"] = {
+    "text": ("Theorems in coq/Props/C04.v, parametric in the meaning of conditions and bodies: if/elif/else evaluates exactly the first branch whose "
+             "condition is TRUE (non-boolean conditions are errors); a loop visits its items in order up to the first break/return/error; no for "
+             "or while loop ever yields break/continue and no call yields return/break/continue (exits reach only the innermost loop/function); "
+             "while re-tests its condition before every iteration. The comprehension-equals-loop part is decided by correspondence and by a "
+             "comprehension-versus-loop search on the implementation only (partial)."),
+    "note": _EV, "technique": "Coq proof over body-parametric Gallina loop/call combinators + vm_compute evaluator correspondence",
+}
+CLAIMED["C03"] = {
+    "text": ("Theorems in coq/Props/C03.v: a call evaluates the body in a fresh frame whose parent is the closure's defining frame (the caller's "
+             "frame does not occur in the meaning of the call); def changes only the current frame; assignment updates the nearest frame on the "
+             "parent chain binding the name, changes no other cell and never creates a binding; the argument binding rule of Args.setArgs is "
+             "proved step by step (named first, unknown name error, positional after named error, positionals to the first free parameter in "
+             "declaration order, surplus to the rest parameter or error) - C03_setargs_partial. Tie: evaluator correspondence on generated "
+             "programs of closures, shadowing and every call form + scoping scenarios."),
+    "note": _EV, "technique": "Coq proof over a Gallina model of environments, closures and argument binding + vm_compute evaluator correspondence",
+}
+CLAIMED["C16"] = {
+    "text": ("Theorems in coq/Props/C16.v over the heap of the model evaluator: every native of the modelled fragment that is not a documented "
+             "mutator leaves every existing heap cell unchanged (it may only allocate) - for all arguments and states; append and insert_at change "
+             "exactly the targeted cell; a write is visible through every holder of the reference and through nothing else; allocation is fresh; "
+             "binding copies the reference. Functions written in the language are decided by correspondence and by a before/after snapshot "
+             "enumeration of every function of the base environment and bundled modules on a value pool (C16_library_partial)."),
+    "note": _EV, "technique": "Coq proof of heap frame lemmas over a Gallina model + vm_compute evaluator correspondence + snapshot enumeration",
+}
 
 NOT_APPLICABLE = {}
